@@ -1252,6 +1252,420 @@ theorem index_reader_chunks (rs : List Rec) (h : ∀ r ∈ rs, WFRec r) (mode : 
     exact h r (by rw [← g1]; exact List.mem_flatten.mpr ⟨g, hg, hr⟩))
 
 
+
+/-! ### FASTA without a final newline -/
+
+theorem fetchInterval_eq (file : Bytes) (r : IdxRow) (a b : Nat) :
+    fetchInterval file r a b = deleteIdx (rawRead file r a b) (newlineIdxs r a b) := rfl
+
+/-- `np.delete` only looks at indices inside the array -/
+theorem delete_congr (idxs idxs' : List Nat) (l : Bytes) (i : Nat)
+    (h : ∀ k, i ≤ k → k < i + l.length → (k ∈ idxs ↔ k ∈ idxs')) :
+    deleteIdxFrom idxs i l = deleteIdxFrom idxs' i l := by
+  induction l generalizing i with
+  | nil => rfl
+  | cons c cs ih =>
+    have hc : idxs.contains i = idxs'.contains i := by
+      have := h i (Nat.le_refl _) (by simp)
+      cases h1 : idxs.contains i <;> cases h2 : idxs'.contains i <;> simp_all
+    simp only [deleteIdxFrom, hc]
+    rw [ih (i + 1) (fun k hk1 hk2 => h k (by omega) (by rw [List.length_cons]; omega))]
+
+theorem delete_snoc (idxs : List Nat) (i : Nat) (l : Bytes) (x : Nat) (h : i + l.length ∈ idxs) :
+    deleteIdxFrom idxs i (l ++ [x]) = deleteIdxFrom idxs i l := by
+  induction l generalizing i with
+  | nil =>
+    have hm : i ∈ idxs := by simpa using h
+    have : idxs.contains i = true := List.contains_iff_mem.mpr hm
+    simp only [List.nil_append, deleteIdxFrom, this, if_true]
+  | cons c cs ih =>
+    simp only [List.cons_append, deleteIdxFrom]
+    rw [ih (i + 1) (by rw [List.length_cons] at h; rw [show i + 1 + cs.length = i + (cs.length + 1) by omega]; exact h)]
+
+/-- when the checks pass, the checked fetch is the fetch -/
+theorem checked_eq_of_some (file : Bytes) (r : IdxRow) (a b : Nat) (x : Bytes)
+    (h : fetchIntervalChecked file r a b = some x) : x = fetchInterval file r a b := by
+  unfold fetchIntervalChecked deleteChecked at h
+  simp only at h
+  rw [fetchInterval_eq]
+  by_cases hl : (newlineIdxs r a b).getLast? = some (rawRead file r a b).length
+  · simp only [hl, if_true] at h
+    split at h
+    · simp only [Option.some.injEq] at h
+      rw [← h]
+      unfold deleteIdx
+      apply delete_congr
+      intro k _ hk
+      constructor
+      · intro hm; exact List.dropLast_subset _ hm
+      · intro hm
+        have hne : newlineIdxs r a b ≠ [] := by intro hc; rw [hc] at hm; simp at hm
+        have := List.dropLast_concat_getLast hne
+        rw [← this, List.mem_append] at hm
+        rcases hm with hm | hm
+        · exact hm
+        · simp only [List.mem_singleton] at hm
+          rw [List.getLast?_eq_some_getLast hne] at hl
+          have := Option.some.inj hl
+          omega
+    · simp at h
+  · simp only [hl, if_false] at h
+    split at h
+    · simp only [Option.some.injEq] at h; exact h.symm
+    · simp at h
+
+theorem wrap_ok' (V : Nat) (hV : 0 < V) (seq : Bytes) (hs : seq ≠ []) : (wrapBytes V seq).getLast? = some 10 := by
+  have : ∀ n, ∀ s : Bytes, s.length ≤ n → s ≠ [] → (wrapBytes V s).getLast? = some 10 := by
+    intro n
+    induction n with
+    | zero => intro s hl hs'; exact absurd (List.eq_nil_of_length_eq_zero (by omega)) hs'
+    | succ m ih =>
+      intro s hl hs'
+      rw [wrap_cons V hV s hs', List.getLast?_append, List.getLast?_cons]
+      by_cases hd : s.drop V = []
+      · rw [hd, wrap_nil]; simp
+      · have hL : 0 < s.length := by cases s with | nil => exact absurd rfl hs' | cons _ _ => simp
+        have := ih (s.drop V) (by rw [List.length_drop]; omega) hd
+        cases hw : wrapBytes V (s.drop V) with
+        | nil => rw [hw] at this; simp at this
+        | cons y ys => rw [hw] at this; simp [this]
+  exact this seq.length seq (Nat.le_refl _) hs
+
+theorem wrap_length (W : Nat) (hW : 0 < W) (n : Nat) : ∀ seq : Bytes, seq.length ≤ n →
+    (wrapBytes W seq).length = seq.length + (seq.length + W - 1) / W := by
+  induction n with
+  | zero =>
+    intro seq hl
+    have : seq = [] := List.eq_nil_of_length_eq_zero (by omega)
+    subst this
+    rw [wrap_nil]
+    simp only [List.length_nil, Nat.zero_add]
+    rw [Nat.div_eq_of_lt (by omega)]
+  | succ m ih =>
+    intro seq hl
+    by_cases hs : seq = []
+    · subst hs
+      rw [wrap_nil]
+      simp only [List.length_nil, Nat.zero_add]
+      rw [Nat.div_eq_of_lt (by omega)]
+    · have hL : 0 < seq.length := by cases seq with | nil => exact absurd rfl hs | cons _ _ => simp
+      rw [wrap_cons W hW seq hs]
+      simp only [List.length_append, List.length_cons, List.length_take]
+      rw [ih (seq.drop W) (by rw [List.length_drop]; omega), List.length_drop]
+      by_cases hle : seq.length ≤ W
+      · have h1 : (seq.length + W - 1) / W = 1 := by
+          rw [show seq.length + W - 1 = (seq.length - 1) + W by omega, Nat.add_div_right _ hW,
+            Nat.div_eq_of_lt (by omega)]
+        have h2 : (seq.length - W + W - 1) / W = 0 := by
+          rw [Nat.div_eq_of_lt (by omega)]
+        rw [h1, h2]; omega
+      · have h1 : (seq.length + W - 1) / W = (seq.length - W + W - 1) / W + 1 := by
+          rw [show seq.length + W - 1 = (seq.length - W + W - 1) + W by omega, Nat.add_div_right _ hW]
+        rw [h1]; omega
+
+theorem take_drop_dropLast_lt {α} (X : List α) (p n : Nat) (h : p + n < X.length) :
+    (X.dropLast.drop p).take n = (X.drop p).take n := by
+  apply List.ext_getElem?
+  intro i
+  simp only [List.getElem?_take, List.getElem?_drop, List.getElem?_dropLast]
+  by_cases hi : i < n
+  · simp only [hi, if_true]
+    rw [if_pos (by omega)]
+  · simp [hi]
+
+theorem take_drop_dropLast_eq {α} (X : List α) (p n : Nat) (h : p + n = X.length) :
+    (X.dropLast.drop p).take n = ((X.drop p).take n).dropLast := by
+  apply List.ext_getElem?
+  intro i
+  simp only [List.getElem?_take, List.getElem?_drop, List.getElem?_dropLast, List.length_take, List.length_drop]
+  by_cases hi : i < n
+  · simp only [hi, if_true]
+    by_cases h2 : i < n - 1
+    · rw [if_pos (by omega), if_pos (by omega)]
+    · rw [if_neg (by omega), if_neg (by omega)]
+  · simp only [hi, if_false]
+    rw [if_neg (by omega)]
+
+/-- the repaired rule on the bytes read and the newline positions -/
+def ruleApply (raw : Bytes) (idxs : List Nat) : Option Bytes :=
+  deleteChecked raw (if idxs.getLast? = some raw.length then idxs.dropLast else idxs)
+
+theorem rule_complete (R0 : Bytes) (idxs : List Nat) (hin : ∀ i ∈ idxs, i < R0.length) :
+    ruleApply R0 idxs = some (deleteIdx R0 idxs) := by
+  unfold ruleApply deleteChecked
+  have hl : idxs.getLast? ≠ some R0.length := by
+    intro hc
+    have := hin _ (List.mem_of_getLast? hc)
+    omega
+  simp only [hl, if_false]
+  have : idxs.all (fun i => decide (i < R0.length)) = true := by
+    simp only [List.all_eq_true, decide_eq_true_eq]; exact hin
+  simp [this]
+
+theorem rule_truncated (D : Bytes) (x : Nat) (init : List Nat) (hin : ∀ i ∈ init, i < D.length) :
+    ruleApply D (init ++ [D.length]) = some (deleteIdx (D ++ [x]) (init ++ [D.length])) := by
+  unfold ruleApply deleteChecked
+  have hl : (init ++ [D.length]).getLast? = some D.length := by simp
+  simp only [hl, if_true, List.dropLast_concat]
+  have : init.all (fun i => decide (i < D.length)) = true := by
+    simp only [List.all_eq_true, decide_eq_true_eq]; exact hin
+  simp only [this, if_true, Option.some.injEq]
+  unfold deleteIdx
+  rw [delete_snoc _ 0 _ _ (by rw [Nat.zero_add]; simp)]
+  apply delete_congr
+  intro k _ hk
+  rw [Nat.zero_add] at hk
+  constructor
+  · intro hm; exact List.mem_append_left _ hm
+  · intro hm
+    rcases List.mem_append.mp hm with hm | hm
+    · exact hm
+    · simp only [List.mem_singleton] at hm; omega
+
+/-- **C17.fetch_interval_checked**: with NumPy's bounds check on `np.delete` modelled, the repaired
+interval read returns exactly `seq[a:b]` for every `0 ≤ a ≤ b ≤ L` and every width — when the record
+is followed by its newline (and anything after it), AND when it is the last record of a file that
+has no final newline (last line full or short) -/
+theorem fetch_interval_checked (pre seq tail : Bytes) (W : Nat) (hW : 0 < W) (hs : seq ≠ []) (name : Bytes)
+    (a b : Nat) (hab : a ≤ b) (hb : b ≤ seq.length) (htail : tail = [] ∨ ∃ post, tail = 10 :: post) :
+    fetchIntervalChecked (pre ++ (wrapBytes W seq).dropLast ++ tail)
+      ⟨name, seq.length, pre.length, min W seq.length, min W seq.length + 1⟩ a b
+      = some ((seq.drop a).take (b - a)) := by
+  have hL : 0 < seq.length := by cases seq with | nil => exact absurd rfl hs | cons _ _ => simp
+  obtain ⟨V, hV⟩ : ∃ V, V = min W seq.length := ⟨_, rfl⟩
+  have hVpos : 0 < V := by omega
+  have hVL : V ≤ seq.length := by omega
+  rw [wrap_min W seq hs, ← hV]
+  obtain ⟨T, hT⟩ : ∃ T, T = wrapBytes V seq := ⟨_, rfl⟩
+  rw [← hT]
+  have hTlen : T.length = seq.length + (seq.length + V - 1) / V := by
+    rw [hT]; exact wrap_length V hVpos seq.length seq (Nat.le_refl _)
+  have hTlast : T.getLast? = some 10 := by
+    rw [hT]
+    exact (wrap_ok' V hVpos seq hs)
+  -- the full file with the final newline and what the (lenient) fetch gives there
+  have hfull := fetch_interval pre [] seq W hW hs name a b hab hb
+  rw [wrap_min W seq hs, ← hV, ← hT, fetchInterval_eq] at hfull
+  obtain ⟨row, hrow⟩ : ∃ row : IdxRow, row = ⟨name, seq.length, pre.length, V, V + 1⟩ := ⟨_, rfl⟩
+  rw [← hrow] at hfull ⊢
+  -- arithmetic of the read
+  obtain ⟨sa, hsa⟩ : ∃ sa, sa = a / V * (V + 1) + a % V := ⟨_, rfl⟩
+  obtain ⟨sb, hsb⟩ : ∃ sb, sb = b / V * (V + 1) + b % V := ⟨_, rfl⟩
+  have hpa : sa = a + a / V := by rw [hsa]; exact posOf_eq V a
+  have hpb : sb = b + b / V := by rw [hsb]; exact posOf_eq V b
+  have hdiv : a / V ≤ b / V := Nat.div_le_div_right hab
+  have hbdiv : b / V ≤ (seq.length + V - 1) / V := Nat.div_le_div_right (by omega)
+  have hsbT : sb ≤ T.length := by rw [hpb, hTlen]; omega
+  have hraw : ∀ file, rawRead file row a b = (file.drop (pre.length + sa)).take (sb - sa) := by
+    intro file; rw [hrow, hsa, hsb]; rfl
+  obtain ⟨n, hn⟩ : ∃ n, n = b / V - a / V := ⟨_, rfl⟩
+  have hidx : newlineIdxs row a b = (List.range n).map (fun j => (V + 1) * (j + 1) - 1 - a % V) := by
+    rw [hrow, hn]; rfl
+  have hmodb := Nat.mod_lt b hVpos
+  have hmoda := Nat.mod_lt a hVpos
+  have hR : sb - sa = n * (V + 1) + b % V - a % V := by
+    rw [hsa, hsb, hn, Nat.sub_mul]
+    have : a / V * (V + 1) ≤ b / V * (V + 1) := Nat.mul_le_mul_right _ hdiv
+    omega
+  have hidx_lt : ∀ i ∈ newlineIdxs row a b, i + b % V + 1 ≤ sb - sa := by
+    intro i hi
+    rw [hidx] at hi
+    obtain ⟨j, hj, rfl⟩ := List.mem_map.mp hi
+    have hj' : j < n := List.mem_range.mp hj
+    have h1 : (V + 1) * (j + 1) ≤ (V + 1) * n := Nat.mul_le_mul_left _ (by omega)
+    have h2 : (V + 1) * n = n * (V + 1) := Nat.mul_comm _ _
+    have h3 : 0 < (V + 1) * (j + 1) := Nat.mul_pos (by omega) (by omega)
+    have h4 : V + 1 ≤ (V + 1) * (j + 1) := Nat.le_mul_of_pos_right _ (by omega)
+    rw [hR]; omega
+  have hsab : sa ≤ sb := by rw [hpa, hpb]; omega
+  -- the bytes read from the file that has its final newline
+  obtain ⟨R0, hR0⟩ : ∃ R0, R0 = (T.drop sa).take (sb - sa) := ⟨_, rfl⟩
+  have hR0len : R0.length = sb - sa := by rw [hR0, List.length_take, List.length_drop]; omega
+  have hfull_raw : rawRead (pre ++ T ++ []) row a b = R0 := by
+    rw [hraw, hR0, List.append_nil, ← List.drop_drop, List.drop_left]
+  rw [hfull_raw] at hfull
+  have hin : ∀ i ∈ newlineIdxs row a b, i < R0.length := by
+    intro i hi; have := hidx_lt i hi; rw [hR0len]; omega
+  have hTsplit : T = T.dropLast ++ [10] := by
+    have hne : T ≠ [] := by intro hc; rw [hc] at hTlast; simp at hTlast
+    have h1 := List.dropLast_concat_getLast hne
+    have h2 : T.getLast hne = 10 := by
+      rw [List.getLast?_eq_some_getLast hne] at hTlast; exact Option.some.inj hTlast
+    rw [h2] at h1; exact h1.symm
+  show ruleApply (rawRead (pre ++ T.dropLast ++ tail) row a b) (newlineIdxs row a b) = _
+  rcases htail with ht | ⟨post, ht⟩
+  · -- no final newline
+    subst ht
+    rw [List.append_nil]
+    by_cases hlt : sb < T.length
+    · have : rawRead (pre ++ T.dropLast) row a b = R0 := by
+        rw [hraw, hR0, ← List.drop_drop, List.drop_left, take_drop_dropLast_lt T sa (sb - sa) (by omega)]
+      rw [this, rule_complete R0 _ hin, hfull]
+    · have hsbT' : sb = T.length := by omega
+      by_cases hab' : a = b
+      · subst hab'
+        have hs0 : sb - sa = 0 := by rw [hsa, hsb]; omega
+        have : rawRead (pre ++ T.dropLast) row a a = R0 := by
+          rw [hraw, hR0, hs0]; simp
+        rw [this, rule_complete R0 _ hin, hfull]
+      · have hbmod : b % V = 0 := by
+          have h1 : b / V = (seq.length + V - 1) / V := by rw [hpb, hTlen] at hsbT'; omega
+          have h2 : b = seq.length := by rw [hpb, hTlen] at hsbT'; omega
+          apply Classical.byContradiction
+          intro hc
+          have hdm := Nat.div_add_mod b V
+          have : V * (b / V + 1) ≤ seq.length + V - 1 := by rw [Nat.mul_add, Nat.mul_one]; omega
+          have := (Nat.le_div_iff_mul_le hVpos).mpr (by rw [Nat.mul_comm]; exact this)
+          omega
+        have hn1 : 1 ≤ n := by
+          have h1 := Nat.div_add_mod b V
+          have h2 := Nat.div_add_mod a V
+          rw [hn]
+          apply Classical.byContradiction
+          intro hc
+          have : b / V = a / V := by omega
+          rw [this] at h1; omega
+        obtain ⟨m, hm⟩ : ∃ m, n = m + 1 := ⟨n - 1, by omega⟩
+        have hlast : (V + 1) * (m + 1) - 1 - a % V = R0.length - 1 := by
+          have : (V + 1) * (m + 1) = n * (V + 1) := by rw [hm, Nat.mul_comm]
+          rw [hR0len, hR, hbmod, this]; omega
+        have hRne : R0 ≠ [] := by
+          intro hc; rw [hc] at hR0len; simp at hR0len
+          have : sa < sb := by rw [hpa, hpb]; omega
+          omega
+        obtain ⟨D, hD⟩ : ∃ D, D = R0.dropLast := ⟨_, rfl⟩
+        have hDlen : D.length = R0.length - 1 := by rw [hD]; exact List.length_dropLast
+        have hRsplit : R0 = D ++ [R0.getLast hRne] := by rw [hD]; exact (List.dropLast_concat_getLast hRne).symm
+        have hidx2 : newlineIdxs row a b = (List.range m).map (fun j => (V + 1) * (j + 1) - 1 - a % V) ++ [D.length] := by
+          rw [hidx, hm, List.range_succ, List.map_append, List.map_cons, List.map_nil, hlast, hDlen]
+        have : rawRead (pre ++ T.dropLast) row a b = D := by
+          rw [hraw, hD, hR0, ← List.drop_drop, List.drop_left, take_drop_dropLast_eq T sa (sb - sa) (by omega)]
+        rw [this, hidx2, rule_truncated D (R0.getLast hRne) _ (by
+          intro i hi
+          obtain ⟨j, hj, rfl⟩ := List.mem_map.mp hi
+          have hj' : j < m := List.mem_range.mp hj
+          have h1 : (V + 1) * (j + 1) + (V + 1) ≤ (V + 1) * (m + 1) := by
+            rw [← Nat.mul_succ]; exact Nat.mul_le_mul_left _ (by omega)
+          omega), ← hidx2, ← hRsplit, hfull]
+  · -- the record is followed by its newline
+    subst ht
+    have : pre ++ T.dropLast ++ 10 :: post = pre ++ T ++ post := by
+      rw (occs := [2]) [hTsplit]; simp
+    rw [this]
+    have : rawRead (pre ++ T ++ post) row a b = R0 := by
+      rw [hraw, hR0, List.append_assoc, ← List.drop_drop, List.drop_left,
+        List.drop_append_of_le_length (by omega), List.take_append_of_le_length (by rw [List.length_drop]; omega)]
+    rw [this, rule_complete R0 _ hin, hfull]
+
+/-- the rule shipped before the repair raised IndexError on `>a\nACGT` (no final newline), interval
+`[0, 4)`: it deleted position 4 of the 4 bytes it had read -/
+theorem fetch_no_final_newline_old_unsound :
+    fetchIntervalOld (">a\nACGT".toList.map Char.toNat) ⟨"a".toList.map Char.toNat, 4, 3, 4, 5⟩ 0 4 = none ∧
+    fetchIntervalChecked (">a\nACGT".toList.map Char.toNat) ⟨"a".toList.map Char.toNat, 4, 3, 4, 5⟩ 0 4
+      = some ("ACGT".toList.map Char.toNat) := by decide
+
+/-- the whole-contig read only depends on the bytes it reads -/
+theorem fetchContig_congr (file file' : Bytes) (r : IdxRow)
+    (h : readAt file r.offset ((((r.rlen + r.lenc - 1) / r.lenc) - 1) * r.lenb + (r.rlen - (((r.rlen + r.lenc - 1) / r.lenc) - 1) * r.lenc))
+       = readAt file' r.offset ((((r.rlen + r.lenc - 1) / r.lenc) - 1) * r.lenb + (r.rlen - (((r.rlen + r.lenc - 1) / r.lenc) - 1) * r.lenc))) :
+    fetchContig file r = fetchContig file' r := by
+  unfold fetchContig
+  simp only [h]
+
+/-- **C17.fetch_contig_no_final_newline**: the whole-contig read of the last record of a file
+without final newline returns the full sequence -/
+theorem fetch_contig_no_final_newline (pre seq : Bytes) (W : Nat) (hW : 0 < W) (hs : seq ≠ []) (name : Bytes) :
+    fetchContig (pre ++ (wrapBytes W seq).dropLast)
+      ⟨name, seq.length, pre.length, min W seq.length, min W seq.length + 1⟩ = seq := by
+  have hL : 0 < seq.length := by cases seq with | nil => exact absurd rfl hs | cons _ _ => simp
+  have hfull := fetch_contig pre [] seq W hW hs name
+  refine Eq.trans (fetchContig_congr _ (pre ++ wrapBytes W seq ++ []) _ ?_) hfull
+  obtain ⟨V, hV⟩ : ∃ V, V = min W seq.length := ⟨_, rfl⟩
+  have hVpos : 0 < V := by omega
+  simp only [← hV]
+  rw [wrap_min W seq hs, ← hV]
+  obtain ⟨T, hT⟩ : ∃ T, T = wrapBytes V seq := ⟨_, rfl⟩
+  rw [← hT]
+  have hTlen : T.length = seq.length + (seq.length + V - 1) / V := by
+    rw [hT]; exact wrap_length V hVpos seq.length seq (Nat.le_refl _)
+  obtain ⟨n, hn⟩ : ∃ n, n = (seq.length + V - 1) / V := ⟨_, rfl⟩
+  rw [← hn] at hTlen ⊢
+  have hn' : n = (seq.length - 1) / V + 1 := by
+    rw [hn, show seq.length + V - 1 = (seq.length - 1) + V by omega, Nat.add_div_right _ hVpos]
+  have hle : (n - 1) * V ≤ seq.length - 1 := by
+    rw [hn', Nat.add_sub_cancel]; exact Nat.div_mul_le_self _ _
+  obtain ⟨k, hk⟩ : ∃ k, k = (n - 1) * V := ⟨_, rfl⟩
+  have hle' : k ≤ seq.length - 1 := by rw [hk]; exact hle
+  have hk2 : (n - 1) * (V + 1) = k + (n - 1) := by rw [hk, Nat.mul_succ]
+  have hn1 : 1 ≤ n := by rw [hn']; exact Nat.le_add_left 1 _
+  clear hn hn' hle
+  have hbytes : (n - 1) * (V + 1) + (seq.length - (n - 1) * V) < T.length := by
+    rw [hTlen, hk2, ← hk]; omega
+  unfold readAt
+  rw [List.append_nil, List.drop_left, List.drop_left]
+  have := take_drop_dropLast_lt T 0 ((n - 1) * (V + 1) + (seq.length - (n - 1) * V)) (by omega)
+  simpa using this
+
+theorem lines_snoc (Y : Bytes) (c : Nat) (hc : c ≠ 10) (cur : Bytes) :
+    linesAux cur (Y ++ [c]) = linesAux cur (Y ++ [c, 10]) := by
+  induction Y generalizing cur with
+  | nil => simp [linesAux, hc]
+  | cons y ys ih =>
+    simp only [List.cons_append, linesAux]
+    split
+    · rw [ih]
+    · rw [ih]
+
+theorem wrap_ends (V : Nat) (hV : 0 < V) (n : Nat) : ∀ s : Bytes, s.length ≤ n → s ≠ [] → 10 ∉ s →
+    ∃ Y c, wrapBytes V s = Y ++ [c, 10] ∧ c ≠ 10 := by
+  induction n with
+  | zero => intro s hl hs; exact absurd (List.eq_nil_of_length_eq_zero (by omega)) hs
+  | succ m ih =>
+    intro s hl hs h10
+    have hL : 0 < s.length := by cases s with | nil => exact absurd rfl hs | cons _ _ => simp
+    rw [wrap_cons V hV s hs]
+    by_cases hd : s.drop V = []
+    · rw [hd, wrap_nil]
+      have hne : s.take V ≠ [] := by
+        intro hc; have := congrArg List.length hc
+        simp only [List.length_take, List.length_nil] at this; omega
+      refine ⟨(s.take V).dropLast, (s.take V).getLast hne, ?_, ?_⟩
+      · have := List.dropLast_concat_getLast hne
+        rw (occs := [1]) [← this]; simp
+      · intro hc
+        exact h10 (List.mem_of_mem_take (by rw [← hc]; exact List.getLast_mem hne))
+    · obtain ⟨Y, c, hY, hc⟩ := ih (s.drop V) (by rw [List.length_drop]; omega) hd
+        (fun hm => h10 (List.mem_of_mem_drop hm))
+      exact ⟨s.take V ++ 10 :: Y, c, by rw [hY]; simp, hc⟩
+
+/-- **C17.index_rows_no_final_newline**: the index built from a FASTA whose last line is not followed
+by a newline is the same as with the newline -/
+theorem index_rows_no_final_newline (rs : List Rec) (h : ∀ r ∈ rs, WFRec r) (hne : rs ≠ []) :
+    buildIndex (fileOf rs).dropLast = specIndex rs := by
+  rw [← (index_rows rs h).1]
+  unfold buildIndex
+  congr 1
+  -- the file ends with a base followed by the newline
+  obtain ⟨rs', r, rfl⟩ : ∃ rs' r, rs = rs' ++ [r] := ⟨rs.dropLast, rs.getLast hne, (List.dropLast_concat_getLast hne).symm⟩
+  have hr := h r (by simp)
+  obtain ⟨Y, c, hY, hc⟩ := wrap_ends r.width hr.width_pos r.seq.length r.seq (Nat.le_refl _) hr.seq_ne hr.seq_nl
+  have hf : fileOf (rs' ++ [r]) = (fileOf rs' ++ 62 :: r.header ++ 10 :: Y) ++ [c, 10] := by
+    rw [fileOf_append]
+    have : fileOf [r] = recBytes r := by simp [fileOf]
+    rw [this]; unfold recBytes; rw [hY]; simp
+  rw [hf]
+  have : ((fileOf rs' ++ 62 :: r.header ++ 10 :: Y) ++ [c, 10]).dropLast = (fileOf rs' ++ 62 :: r.header ++ 10 :: Y) ++ [c] := by
+    rw [show [c, 10] = [c] ++ [10] from rfl, ← List.append_assoc, List.dropLast_concat]
+  rw [this]
+  unfold linesOf
+  exact lines_snoc _ c hc []
+
+example : ∃ rs : List Rec, (∀ r ∈ rs, WFRec r) ∧ rs ≠ [] :=
+  ⟨[⟨"a d".toList.map Char.toNat, "ACGTACGT".toList.map Char.toNat, 4⟩], by
+    intro r hr; simp only [List.mem_singleton] at hr; subst hr
+    exact ⟨by decide, by decide, by decide, by decide, by decide⟩, by simp⟩
+
+
 section Traced
 open Gen.C17
 
